@@ -71,8 +71,8 @@ func dumpMode(args []string) {
 			continue
 		}
 		vs := printable(v)
-		if len(vs) > 400 {
-			vs = vs[:400] + "..."
+		if len(vs) > 3000 {
+			vs = vs[:3000] + "..."
 		}
 		fmt.Printf("%s => %s\n", ks, vs)
 	}
